@@ -512,7 +512,7 @@ func (c C09Case) universe() *Universe {
 func isAndCase(c C09Case) bool { return !m.IsOr(c.Op) }
 
 func genC09(t *rapid.T) C09Case {
-	c := C09Case{Mask: rapid.IntRange(0, 15).Draw(t, "mask"), Events: pickW(t, "events", 3, 3, 3, 1), Reach: rapid.Bool().Draw(t, "reach")}
+	c := C09Case{Mask: rapid.IntRange(0, 15).Draw(t, "mask"), Events: []int{0, 1, 2, 3, -1, -2, -3}[pickW(t, "events", 3, 3, 3, 1, 1, 1, 1)], Reach: rapid.Bool().Draw(t, "reach")}
 	switch pickW(t, "kind", 3, 2, 1, 6, 1, 2, 1) {
 	case 5:
 		c.Kind, c.Op, c.N = "argwide", rapid.SampledFrom([]string{"add", "mul", "and", "or", "eq", "c_sum", "sub"}).Draw(t, "op"), rapid.IntRange(100, 130).Draw(t, "n")
@@ -856,6 +856,9 @@ func sweepC09(tier string, shard, shards int, emit func(C09Case)) {
 							continue
 						}
 						send(C09Case{Kind: "nodes", Op: pair[0], Inner: pair[1], N: b + d, Mask: mask, Events: ev, Reach: true})
+						if ev == 0 && d == 0 { // event options present in the config, and false: nothing is reported, nothing is counted
+							send(C09Case{Kind: "nodes", Op: pair[0], Inner: pair[1], N: b + d, Mask: mask, Events: -1 - (b+mask)%3, Reach: true})
+						}
 						// the same size reached with if nodes (their end-if marker is a node too) and
 						// with two-leaf operators (inlined, so no event node, but only under FastEvaluation)
 						for _, dec := range [][2]int{{1, 0}, {3, 0}, {500, 0}, {0, 1}, {0, 3}, {0, 500}, {20, 20}} {
@@ -880,7 +883,7 @@ func sweepC09(tier string, shard, shards int, emit func(C09Case)) {
 
 var propC09 = Prop[C09Case]{
 	ID:    "C09",
-	Rule:  "constructed boundary programs: (argwide) a 100..130-operand call as the last argument of 1..3 enclosing calls with up to 40 pending operands, prefix and infix; (biglist) three-node programs over list literals of up to 140 000 elements; (arity) every n-ary operator and alias with 120..135 operands and with counts where narrow integers wrap (255..257, 300, 383..385, 511..513, 640, 1024, 32773) - variables, neutral constants, constants then a variable, a variable then constants; (flatten) and/or whose operand count crosses 127 only after ReduceNesting merges 2..6 inner operators, same and different operator kinds; (nodes; also with leaves replaced by ifs, by two-leaf operators, and by ifs over two-leaf operators) programs of exactly N nodes for N within +-3 of 16383, 16384 and 32767 (and 8192, 10922) built from <=127-ary layers of + or alternating and/or over variables; (stack) six nesting shapes (right-nested arithmetic, alternating and/or, wide-then-deep, if chains, comparison under and, deep-first) for every operand-stack requirement 1..24; x optimization subsets x {no events, ReportEvent, Debug} x bindings that reach the deepest point / short-circuit at once; programs compiled without events sometimes get a channel attached to Expr.EventChan all the same. Oracle: Compile returns exactly one of program/error, never panics; it rejects iff the harness's own count on the optimized shape exceeds a limit (operands > 127, nodes > 32767, nodes incl. event nodes > 32767); compiled programs are themselves within the limits (node count and widest operator read through the hook; a program the size model puts beyond a limit may compile only if what was built is smaller than modelled and within the limits), have a stack bound >= the slots the evaluation needs (hook), and Eval and TryEval return R's value. Non-trivial = a size parameter within +-2 of 127 / 16383 / 32767 or a stack requirement within +-2 of 8 / 16; distinct by parameters. The sweep part is an exhaustive grid (reduced in quick)",
+	Rule:  "constructed boundary programs: (argwide) a 100..130-operand call as the last argument of 1..3 enclosing calls with up to 40 pending operands, prefix and infix; (biglist) three-node programs over list literals of up to 140 000 elements; (arity) every n-ary operator and alias with 120..135 operands and with counts where narrow integers wrap (255..257, 300, 383..385, 511..513, 640, 1024, 32773) - variables, neutral constants, constants then a variable, a variable then constants; (flatten) and/or whose operand count crosses 127 only after ReduceNesting merges 2..6 inner operators, same and different operator kinds; (nodes; also with leaves replaced by ifs, by two-leaf operators, and by ifs over two-leaf operators) programs of exactly N nodes for N within +-3 of 16383, 16384 and 32767 (and 8192, 10922) built from <=127-ary layers of + or alternating and/or over variables; (stack) six nesting shapes (right-nested arithmetic, alternating and/or, wide-then-deep, if chains, comparison under and, deep-first) for every operand-stack requirement 1..24; x optimization subsets x {no events, ReportEvent, Debug, both, event keys present and false} x programs below an if (branch, condition) x bindings that reach the deepest point / short-circuit at once; programs compiled without events sometimes get a channel attached to Expr.EventChan all the same. Oracle: Compile returns exactly one of program/error, never panics; it rejects iff the harness's own count on the optimized shape exceeds a limit (operands > 127, nodes > 32767, nodes incl. event nodes > 32767); compiled programs are themselves within the limits (node count and widest operator read through the hook; a program the size model puts beyond a limit may compile only if what was built is smaller than modelled and within the limits), have a stack bound >= the slots the evaluation needs (hook), and Eval and TryEval return R's value. Non-trivial = a size parameter within +-2 of 127 / 16383 / 32767 or a stack requirement within +-2 of 8 / 16; distinct by parameters. The sweep part is an exhaustive grid (reduced in quick)",
 	Gen:   genC09,
 	Check: checkC09,
 	Sweep: sweepC09,
